@@ -80,9 +80,6 @@ func c03(c *q.Ctx) {
 		c.ArgIs(ds, "SpinLock.Unlock", 1, "utxo.(*SpinLock).TryLock(*)#0", 1, "exactly the keys obtained are released")
 		nDefer := 0
 		for _, ci := range q.CallsIn(ds, "SpinLock.Unlock") {
-			if _, ok := ci.(interface{ Common() interface{} }); ok {
-				_ = ok
-			}
 			if isDefer(ci) {
 				nDefer++
 			}
